@@ -1,6 +1,7 @@
 #!/bin/sh
-# usage: mutbatch.sh "C01:1 C01:2 ..." [checks]   - evaluates mutants 3 at a time
+# usage: [MUTDIR=/tmp/mut2 TAG=r2] mutbatch.sh "C01:1 C01:2 ..." [checks]   - evaluates mutants 3 at a time
 cd /verif
 CH=${2:-all}
-echo "$1" | tr ' ' '\n' | xargs -P 3 -I{} sh -c 'id=$(echo {} | cut -d: -f1); n=$(echo {} | cut -d: -f2); python3 tools/mutant.py eval ${id}m$n /tmp/mut/$id/mutation$n.diff --demo /tmp/mut/$id/demo$n.rs --checks '"$CH"' > .work/mut-${id}m$n.log 2>&1'
+export MUTDIR=${MUTDIR:-/tmp/mut} TAG=${TAG:-}
+echo "$1" | tr ' ' '\n' | xargs -P ${PAR:-3} -I{} sh -c 'id=$(echo {} | cut -d: -f1); n=$(echo {} | cut -d: -f2); python3 tools/mutant.py eval ${id}${TAG}m$n $MUTDIR/$id/mutation$n.diff --demo $MUTDIR/$id/demo$n.rs --checks '"$CH"' > .work/mut-${id}${TAG}m$n.log 2>&1'
 echo batch done
